@@ -41,6 +41,8 @@ def _sound(case):
 
 
 def valid_case(case):
+    if case.get('kind') == 'cmp_threads':
+        return len(case['versions']) >= 2
     return all(len(case[k][0]) >= 2 or not case[k][1] for k in ('a', 'b', 'c') if k in case)
 
 
@@ -109,6 +111,36 @@ def eval_case(case):
         if bw != (_cmp(product, a, b) <= 0):
             fails.append(['between-versions-upper-bound', '%r %r' % (a, b)])
         return mkres(case, nt=nt, classes=classes, fails=fails)
+    if k == 'cmp_threads':
+        # the same judgements made by several threads at once (a multi-target run compares versions from every worker):
+        # each thread owns one server version and compares it with all others; every answer must be the one a single thread gets
+        import sys
+        import threading
+        vers = [tuple(v) for v in case['versions']]
+        ref = {(i, j): _cmp(product, list(a), list(b)) for i, a in enumerate(vers) for j, b in enumerate(vers)}
+        wrong = []
+        old = sys.getswitchinterval()
+        try:
+            sys.setswitchinterval(1e-6)
+            bar = threading.Barrier(case['threads'])
+
+            def w(t):
+                bar.wait()
+                for rep in range(case['reps']):
+                    i = (t + rep // 7) % len(vers) if case.get('rotate') else t % len(vers)
+                    for j in range(len(vers)):
+                        got = _cmp(product, list(vers[i]), list(vers[j]))
+                        if got != ref[(i, j)] and len(wrong) < 5:
+                            wrong.append((vers[i], vers[j], got, ref[(i, j)]))
+            ts = [threading.Thread(target=w, args=(t,)) for t in range(case['threads'])]
+            [t.start() for t in ts]
+            [t.join() for t in ts]
+        finally:
+            sys.setswitchinterval(old)
+        if wrong:
+            a, b, got, want = wrong[0]
+            fails.append(['judgement-differs-under-concurrent-comparisons', '%s: %s%s vs %s%s judged %d by a thread running beside %d others, %d when asked alone (%d such answers)' % (product, a[0], a[1], b[0], b[1], got, case['threads'] - 1, want, len(wrong))])
+        return mkres(case, nt=True, classes=['cmp_threads', product, 'threads:%d' % case['threads']], fails=fails)
     if k == 'triple':
         a, b, c = case['a'], case['b'], case['c']
         ab, bc, ac = _cmp(product, a, b), _cmp(product, b, c), _cmp(product, a, c)
@@ -278,6 +310,12 @@ def run(ctx):
     ctx.hyp('strat_pair', 30000 * f, label=1)
     ctx.hyp('strat_pair_close', 30000 * f, label=2)
     ctx.hyp('strat_pair_wide', 6000 * f, label=7)
+    thr = []
+    VS = {'OpenSSH': [['9.9', ''], ['10.0', ''], ['9.9', 'p1'], ['8.2', 'p1'], ['10.0', 'p2'], ['7.4', '']], 'libssh': [['0.7.0', ''], ['0.10.6', ''], ['0.9.8', ''], ['0.11.1', '']], 'Dropbear SSH': [['2020.81', ''], ['2024.86', ''], ['0.52', ''], ['2019.78', 'test1']]}
+    for i in range(6 if ctx.quick else 60):
+        p = sorted(VS)[i % 3]
+        thr.append({'kind': 'cmp_threads', 'product': p, 'versions': VS[p], 'threads': 2 + i % 5, 'reps': 1500 if ctx.quick else 4000, 'rotate': i % 2 == 1})
+    ctx.map(thr, chunk=1)
     ctx.hyp('strat_triple', 10000 * f, label=3)
     ctx.hyp('strat_triple_close', 10000 * f, label=4)
     ctx.hyp('strat_timeframe', 5000 * f, label=5)
